@@ -30,3 +30,37 @@ class ClientRig:
 
     def close(self):
         self.bus.close()
+
+
+class PairRig:
+    """Real SdoClient (RemoteNode on the master network) <-> real SdoServer
+    (LocalNode on the slave network), one node or several, same OD."""
+
+    def __init__(self, od_factory, node_ids=(5,), mode="inline", timeout=0.005, seed=0, max_delay=0.0,
+                 master_kw=None, slave_kw=None):
+        import canopen
+        self.bus = simbus.SimBus(mode=mode, seed=seed, max_delay=max_delay)
+        self.master_net, self.master_station = simbus.make_network(self.bus, "master", **(master_kw or {}))
+        self.slave_net, self.slave_station = simbus.make_network(self.bus, "slave", **(slave_kw or {}))
+        self.remotes, self.locals = {}, {}
+        for nid in node_ids:
+            r = canopen.RemoteNode(nid, od_factory())
+            r.sdo.RESPONSE_TIMEOUT = timeout
+            self.master_net.add_node(r)
+            l = canopen.LocalNode(nid, od_factory())
+            self.slave_net.add_node(l)
+            self.remotes[nid], self.locals[nid] = r, l
+        self.node_id = node_ids[0]
+        self.node = self.remotes[self.node_id]
+        self.local = self.locals[self.node_id]
+        self.rx, self.tx = 0x600 + self.node_id, 0x580 + self.node_id
+
+    @property
+    def sdo(self):
+        return self.node.sdo
+
+    def wire(self, last=40):
+        return [f.brief() for f in list(self.bus.log)[-last:]]
+
+    def close(self):
+        self.bus.close()
